@@ -13,12 +13,14 @@ import (
 	"math"
 	"sort"
 	"strings"
+	"sync"
 	"testing/iotest"
 
 	chunk "github.com/ipfs/boxo/chunker"
 	"github.com/ipfs/go-cid"
 	"github.com/ipfs/go-unixfsnode"
 	"github.com/ipfs/go-unixfsnode/data"
+	"github.com/ipfs/go-unixfsnode/data/builder"
 	quickbuilder "github.com/ipfs/go-unixfsnode/data/builder/quick"
 	"github.com/ipfs/go-unixfsnode/file"
 	dagpb "github.com/ipld/go-codec-dagpb"
@@ -260,6 +262,9 @@ func runFileInput(rep *Report, in FileInput, cfB, cfR *CaseFile) {
 	switch in.Mode {
 	case "build":
 		runBuildCase(rep, in, cfB, fail)
+		return
+	case "concurrent":
+		runConcurrentBuilds(in, fail)
 		return
 	}
 	if handUnreadable[in.Hand] || (strings.HasPrefix(in.Hand, "nosizes-") && in.Mode == "faults") {
@@ -569,6 +574,34 @@ func runFileInput(rep *Report, in FileInput, cfB, cfR *CaseFile) {
 					fail("C12", "asbytes-panic", "AsBytes panicked on an unavailable block", "error", "panic")
 				} else if ob.Class == "ok" {
 					fail("C12", "asbytes-truncated", "AsBytes returned a value although a block of the file is unavailable", "load error", fmt.Sprintf("%d of %d bytes, nil error (storage error io.ErrUnexpectedEOF: %v)", len(b), len(fc.content), sentinel))
+				}
+				// the same node asked again (a node is a value: nothing a failed call left behind may turn the next answer into a value),
+				// then a fresh reader from it read to the end
+				for again := 2; again <= 3; again++ {
+					oa := guard(func() error {
+						var err error
+						b, err = n2.AsBytes()
+						return err
+					})
+					if oa.Class == "ok" && ob.Class != "ok" {
+						fail("C12", "asbytes-again-truncated", "a repeated AsBytes on the same node returned a value although a block of the file is unavailable (the first call reported the error)", "load error", fmt.Sprintf("call %d: %d of %d bytes, nil error", again, len(b), len(fc.content)))
+						break
+					}
+				}
+				if l2, isL := n2.(lbn); isL && ob.Class != "ok" {
+					var nb int
+					os2 := guard(func() error {
+						r, err := l2.AsLargeBytes()
+						if err != nil {
+							return err
+						}
+						bb, err := io.ReadAll(r)
+						nb = len(bb)
+						return err
+					})
+					if os2.Class == "ok" {
+						fail("C12", "stream-after-asbytes-truncated", "a reader obtained after a failed AsBytes on the same node read to end-of-file although a block of the file is unavailable", "load error", fmt.Sprintf("%d of %d bytes, EOF", nb, len(fc.content)))
+					}
 				}
 			}
 			fc.st.ReadHook = nil
@@ -907,6 +940,10 @@ func runBuildCase(rep *Report, in FileInput, cf *CaseFile, fail func(prop, sig, 
 	root, size, err := buildFile(st, in.Width, in.Chunker, content)
 	if err != nil {
 		fail("C01", "build-error", "BuildUnixFSFile failed", nil, err.Error())
+		// the reference importer gives every content, chunker setting and width >= 2 a root: no root is not the same root
+		if _, _, rerr := refImport(NewStore(), refOpts{Width: in.Width, Chunker: in.Chunker, RawLeaves: true}, content); rerr == nil {
+			fail("C07", "build-error-ref-ok", "BuildUnixFSFile failed on an input for which the reference balanced importer returns a root", "a root link", err.Error())
+		}
 		return
 	}
 	dag := dumpDAG(st, root, map[string]*DNode{})
@@ -1043,6 +1080,9 @@ func scnFiles(rep *Report, rng *Rng, tier string, outdir string) {
 		if in.Width > 1000 && tier != "thorough" {
 			cfUse = nil // quick tier: the wide tree is compared with the reference importer only (60 s in the model)
 		}
+		if (in.Size > 200000 && tier != "thorough") || in.Size > 700000 {
+			cfUse = nil // the content fingerprint of megabytes takes minutes in Coq: reference importer, size walk and read-back only
+		}
 		runFileInput(rep, in, cfUse, nil)
 		key := fmt.Sprint(in.Width, in.Chunker, in.Size, in.Seed)
 		nchunks := 0
@@ -1068,6 +1108,18 @@ func scnFiles(rep *Report, rng *Rng, tier string, outdir string) {
 	// the default chunker (chunker string "") on contents of at most one chunk: also in the quick tier
 	for _, n := range []int{0, 1, 1000, 4097} {
 		addBuild(FileInput{Width: 174, Chunker: "", Size: n, Seed: uint64(50 + n%7)})
+	}
+	// the largest chunks a chunker string can ask for (chunk.ChunkSizeLimit = 1 MiB): one full chunk, one byte more, two and a bit
+	for _, n := range []int{1048576, 1048577, 2*1048576 + 5} {
+		addBuild(FileInput{Width: 2, Chunker: "size-1048576", Size: n, Seed: 11})
+	}
+	// several builds through one LinkSystem at the same time
+	for _, cb := range []FileInput{{Width: 4, Chunker: "size-16", Size: 3000, Seed: 500, Mode: "concurrent"}, {Width: 8, Chunker: "size-48", Size: 200, Seed: 900, Mode: "concurrent"}} {
+		runFileInput(rep, cb, nil, nil)
+		for _, p := range []string{"C10", "C11"} {
+			rep.Count(p, fmt.Sprint("concurrent", cb.Width, cb.Chunker), true, cb)
+			rep.Dist(p, "concurrent-builds")
+		}
 	}
 	// a very wide tree: more links per node than any size-derived cap (one root over 25000 leaves)
 	addBuild(FileInput{Width: 30000, Chunker: "size-1", Size: 25000, Seed: 7})
@@ -2175,4 +2227,81 @@ func randHandFile(st *Store, seed uint64, allowUnsized bool) (cid.Cid, []byte, b
 	}
 	c, content, _ := build(2+int(seed%2), true)
 	return c, content, unsized
+}
+
+// runConcurrentBuilds: in.Width goroutines build different files (in.Size bytes and a few more each, chunker in.Chunker) and
+// a directory over them through ONE *ipld.LinkSystem at the same time. A builder's result is a function of its logical input
+// (C10) and its sizes are the true cumulative sizes (C11) whoever else is building: every (link, size) has to be the one the
+// same call returns when it runs alone into a private store.
+func runConcurrentBuilds(in FileInput, fail func(prop, sig, what string, exp, got interface{})) {
+	type res struct {
+		link string
+		size uint64
+		err  error
+	}
+	one := func(ls *ipld.LinkSystem, g, j int) (res, res) {
+		content := synthContent(in.Seed+uint64(100*g+j), in.Size+17*g+j)
+		l, sz, err := builder.BuildUnixFSFile(bytes.NewReader(content), in.Chunker, ls)
+		if err != nil || l == nil {
+			return res{err: fmt.Errorf("file: %v", err)}, res{}
+		}
+		e, err := builder.BuildUnixFSDirectoryEntry(fmt.Sprintf("f%d-%d", g, j), int64(sz), l)
+		if err != nil {
+			return res{err: err}, res{}
+		}
+		dl, dsz, err := builder.BuildUnixFSDirectory([]dagpb.PBLink{e}, ls)
+		if err != nil || dl == nil {
+			return res{l.String(), sz, nil}, res{err: fmt.Errorf("dir: %v", err)}
+		}
+		return res{l.String(), sz, nil}, res{dl.String(), dsz, nil}
+	}
+	const perG = 6
+	want := map[[2]int][2]res{}
+	for g := 0; g < in.Width; g++ {
+		for j := 0; j < perG; j++ {
+			f, d := one(NewStore().LinkSystem(), g, j)
+			want[[2]int{g, j}] = [2]res{f, d}
+		}
+	}
+	var mu sync.Mutex
+	blocks := map[string][]byte{}
+	shared := cidlink.DefaultLinkSystem()
+	shared.StorageWriteOpener = func(ipld.LinkContext) (io.Writer, ipld.BlockWriteCommitter, error) {
+		buf := &bytes.Buffer{}
+		return buf, func(l ipld.Link) error {
+			mu.Lock()
+			blocks[l.(cidlink.Link).Cid.KeyString()] = buf.Bytes()
+			mu.Unlock()
+			return nil
+		}, nil
+	}
+	got := map[[2]int][2]res{}
+	var wg sync.WaitGroup
+	for g := 0; g < in.Width; g++ {
+		wg.Add(1)
+		go func(g int) {
+			defer wg.Done()
+			for j := 0; j < perG; j++ {
+				f, d := one(&shared, g, j)
+				mu.Lock()
+				got[[2]int{g, j}] = [2]res{f, d}
+				mu.Unlock()
+			}
+		}(g)
+	}
+	wg.Wait()
+	for k, w := range want {
+		g := got[k]
+		for i, what := range []string{"file", "directory"} {
+			if w[i].err != nil {
+				continue
+			}
+			if g[i].err != nil {
+				fail("C10", "concurrent-build-error", "a "+what+" build that succeeds alone failed while other builds used the same LinkSystem", "success", g[i].err.Error())
+			} else if g[i].size != w[i].size || g[i].link != w[i].link {
+				fail("C11", "concurrent-build-size", "a "+what+" built while other builds use the same LinkSystem has another link / size than the same build running alone (sizes recorded in the links or returned are not the true cumulative sizes)", fmt.Sprint(w[i].link, " ", w[i].size), fmt.Sprint(g[i].link, " ", g[i].size))
+				fail("C10", "concurrent-build-differs", "the link / size of a "+what+" build depends on what else is being built through the same LinkSystem", fmt.Sprint(w[i].link, " ", w[i].size), fmt.Sprint(g[i].link, " ", g[i].size))
+			}
+		}
+	}
 }
